@@ -189,6 +189,39 @@ def worker(ob):
             rv_, rt, rbus, rstl = mk("r", ob["r"])
             res = m.call_text(f"<{lt} as PartialEq<{rt}>>::eq", [m.temp_ref(lv), m.temp_ref(rv_)], [parse_type("&" + lt), parse_type("&" + rt)], parse_type("bool"))
             props.append(("per-day term of == is: same business-day status and same settlement status", b_eq(res, z3.And(lbus(d) == rbus(d), lstl(d) == rstl(d)))))
+
+            def replay(model):
+                # explicit calendars that agree everywhere except (possibly) on the model's day; a NamedCal side cannot be built from free sets
+                out = {"scenario": None, "mismatch": [], "native": {}, "reproduced": False}
+                if "NamedCal" in (ob["l"], ob["r"]):
+                    out["mismatch"].append("not replayable: a NamedCal can only be built from built-in names")
+                    return out
+                dv = model.eval(d, model_completion=True).as_long()
+                def conc(tag):
+                    hol = z3.Function(f"hol_{tag}", z3.IntSort(), z3.BoolSort()); msk = z3.Function(f"mask_{tag}", z3.IntSort(), z3.BoolSort())
+                    return {"type": "cal", "holidays": [dv] if z3.is_true(model.eval(hol(dv), model_completion=True)) else [],
+                            "weekmask": [k for k in range(7) if z3.is_true(model.eval(msk(k), model_completion=True))]}
+                def side(sd, k):
+                    if k == "Cal":
+                        return conc(f"{sd}c0")
+                    return {"type": "union", "cals": [conc(f"{sd}c0"), conc(f"{sd}c1")], "settle": [conc(f"{sd}s0")]}
+                a, b = side("l", ob["l"]), side("r", ob["r"])
+                sc = {"kind": "cal_eq", "a": a, "b": b}
+                out["scenario"] = sc
+                def status(spec, day):
+                    wd = (day + 3) % 7
+                    bl = lambda c: wd not in c["weekmask"] and day not in c["holidays"]
+                    if spec["type"] == "cal":
+                        return (bl(spec), True)
+                    return (all(bl(c) for c in spec["cals"]), all(bl(c) for c in spec["settle"]))
+                want = all(status(a, day) == status(b, day) for day in list(range(0, 14)) + [dv])      # weekly pattern + the one holiday
+                for prof in ("dev", "release"):
+                    o = native_run([sc], prof)[0]
+                    out["native"][prof] = o
+                    if o.get("eq") != want:
+                        out["mismatch"].append(f"{prof}: native == gives {o.get('eq')}, day-by-day comparison gives {want} (day {dv})")
+                out["reproduced"] = bool(out["mismatch"])
+                return out
         else:
             ln = ob["ln"]
             m.assume(d <= 84000); m.assume(d >= 10)
@@ -200,6 +233,20 @@ def worker(ob):
                 props.append(("length", len(items) == max(ln + 1, 0)))
                 for k, it in enumerate(items):
                     props.append((f"item {k} = start + {k}", b_and(i_cmp("eq", it.day, d + k), i_cmp("eq", it.sec, 0))))
+
+            def replay(model):
+                dv = model.eval(d, model_completion=True).as_long()
+                sc = {"kind": "cal", "cal": {"type": "cal", "holidays": [], "weekmask": [5, 6]}, "ops": [{"op": "cal_date_range", "date": dv, "end": dv + ln}]}
+                out = {"scenario": sc, "mismatch": [], "native": {}, "reproduced": False}
+                want = list(range(dv, dv + ln + 1))
+                for prof in ("dev", "release"):
+                    o = native_run([sc], prof)[0]
+                    out["native"][prof] = o
+                    got = (o.get("results") or [None])[0]
+                    if got != want:
+                        out["mismatch"].append(f"{prof}: cal_date_range({dv}, {dv + ln}) native={got} expected={want}")
+                out["reproduced"] = bool(out["mismatch"])
+                return out
         add_props(chk, props, replay)
         return chk
     return explore_ob(harness, max_paths=3000, max_seconds=1200, models=EqModels())
